@@ -448,122 +448,6 @@ theorem vaultPass_removes (e : Env) (L : List Vault) (batch key off : Nat) (f : 
     exact fold_removes e L f hf sl (fun v hv => hsub v (goSlice_sub _ _ _ _ hsl v hv)) w hsub
 
 
-/-! ### borrows -/
-
-
-def StepR.world : StepR → World
-  | .ok w => w
-  | .err w => w
-
-def flag (id : Nat) (l : List Borrow) : List Borrow := l.map (fun x => if x.id == id then { x with liquidated := true } else x)
-
-theorem flag_ids (id : Nat) (l : List Borrow) : (flag id l).map (·.id) = l.map (·.id) := by
-  unfold flag
-  induction l with
-  | nil => rfl
-  | cons x xs ih =>
-    simp only [List.map_cons, List.map_map] at ih ⊢
-    congr 1
-    · by_cases h : (x.id == id) = true <;> simp [h]
-
-/-- the borrow step leaves the vault list alone and changes the borrow list at most by flagging borrow `id` -/
-theorem liquidateBorrowV2_frame (e : Env) (id : Nat) (w : World) :
-    (liquidateBorrowV2 e id w).world.vaults = w.vaults ∧
-    ((liquidateBorrowV2 e id w).world.borrows = w.borrows ∨
-     (∃ b, w.borrows.find? (·.id == id) = some b ∧ b.liquidated = false ∧ borrowUnsafe e b = true ∧
-        (liquidateBorrowV2 e id w).world.borrows = flag id w.borrows)) := by
-  unfold liquidateBorrowV2
-  split
-  · exact ⟨rfl, Or.inl rfl⟩
-  · rename_i b hb
-    split
-    · exact ⟨rfl, Or.inl rfl⟩
-    · rename_i hl
-      split
-      · exact ⟨rfl, Or.inl rfl⟩
-      · split
-        · exact ⟨rfl, Or.inl rfl⟩
-        · rename_i r hr
-          split
-          · rename_i hgt
-            have hu : borrowUnsafe e b = true := by
-              unfold borrowUnsafe; simp [hr, hgt]
-            have hl' : b.liquidated = false := by simpa using hl
-            simp only
-            split
-            · exact ⟨rfl, Or.inl rfl⟩
-            · split
-              · exact ⟨rfl, Or.inr ⟨b, hb, hl', hu, rfl⟩⟩
-              · split
-                · exact ⟨rfl, Or.inr ⟨b, hb, hl', hu, rfl⟩⟩
-                · split
-                  · exact ⟨rfl, Or.inr ⟨b, hb, hl', hu, rfl⟩⟩
-                  · exact ⟨rfl, Or.inr ⟨b, hb, hl', hu, rfl⟩⟩
-          · exact ⟨rfl, Or.inl rfl⟩
-
-def NodupB (w : World) : Prop := (w.borrows.map (·.id)).Nodup
-
-/-- an unflagged borrow on the safe side keeps its record, flag included -/
-def KeepsB (e : Env) (w w' : World) : Prop :=
-  ∀ b, b ∈ w.borrows → b.liquidated = false → borrowUnsafe e b = false → b ∈ w'.borrows
-
-theorem same_id_eqB {l : List Borrow} (hn : (l.map (·.id)).Nodup) {a b : Borrow} (ha : a ∈ l) (hb : b ∈ l) (h : a.id = b.id) : a = b := by
-  induction l with
-  | nil => cases ha
-  | cons x xs ih =>
-    simp only [List.map_cons, List.nodup_cons] at hn
-    cases ha with
-    | head =>
-      cases hb with
-      | head => rfl
-      | tail _ hb' => exact absurd (List.mem_map_of_mem (f := (·.id)) hb') (by rw [← h]; exact hn.1)
-    | tail _ ha' =>
-      cases hb with
-      | head => exact absurd (List.mem_map_of_mem (f := (·.id)) ha') (by rw [h]; exact hn.1)
-      | tail _ hb' => exact ih hn.2 ha' hb'
-
-theorem liquidateBorrowV2_keeps (e : Env) (id : Nat) (w : World) (hn : NodupB w) :
-    KeepsB e w (liquidateBorrowV2 e id w).world ∧ NodupB (liquidateBorrowV2 e id w).world := by
-  obtain ⟨_, hb⟩ := liquidateBorrowV2_frame e id w
-  cases hb with
-  | inl h => unfold KeepsB NodupB; rw [h]; exact ⟨fun b hb _ _ => hb, hn⟩
-  | inr h =>
-    obtain ⟨b0, hf, _, hu, hfl⟩ := h
-    unfold KeepsB NodupB
-    rw [hfl]
-    refine ⟨fun b hb _ hs => ?_, by rw [flag_ids]; exact hn⟩
-    have h0 := List.find?_some hf
-    have hm0 := List.mem_of_find?_eq_some hf
-    simp at h0
-    have hne : ¬ (b.id = id) := by
-      intro he
-      have : b = b0 := same_id_eqB hn hb hm0 (by rw [he, h0])
-      subst this
-      rw [hu] at hs; cases hs
-    unfold flag
-    apply List.mem_map.mpr
-    exact ⟨b, hb, by simp [hne]⟩
-
-theorem borrowLoopV2_spec (e : Env) (ids : List Nat) (w : World) (hn : NodupB w) :
-    (borrowLoopV2 e ids w).world.vaults = w.vaults ∧ KeepsB e w (borrowLoopV2 e ids w).world := by
-  induction ids generalizing w with
-  | nil => exact ⟨rfl, fun b hb _ _ => hb⟩
-  | cons id rest ih =>
-    have hfr := liquidateBorrowV2_frame e id w
-    have hk := liquidateBorrowV2_keeps e id w hn
-    unfold borrowLoopV2
-    cases hstep : liquidateBorrowV2 e id w with
-    | err leak =>
-      rw [hstep] at hfr hk
-      exact ⟨hfr.1, hk.1⟩
-    | ok w1 =>
-      rw [hstep] at hfr hk
-      simp only
-      have := ih w1 hk.2
-      refine ⟨by rw [this.1]; exact hfr.1, fun b hb hl hs => this.2 b (hk.1 b hb hl hs) hl hs⟩
-
-
-
 /-! ### custody and auction book -/
 
 
@@ -868,95 +752,292 @@ theorem goSlice_neg {α} (l : List α) (cnt off batch : Int) (hc : cnt < 0) :
 
 
 
+
+/-! ### borrows (generation 2, after fixes 16be2e4 / c15713f) -/
+
+
+def flag (id : Nat) (l : List Borrow) : List Borrow := l.map (fun x => if x.id == id then { x with liquidated := true } else x)
+
+theorem flag_ids (id : Nat) (l : List Borrow) : (flag id l).map (·.id) = l.map (·.id) := by
+  unfold flag
+  induction l with
+  | nil => rfl
+  | cons x xs ih =>
+    simp only [List.map_cons, List.map_map] at ih ⊢
+    congr 1
+    · by_cases h : (x.id == id) = true <;> simp [h]
+
+def NodupB (w : World) : Prop := (w.borrows.map (·.id)).Nodup
+
+/-- an unflagged borrow on the safe side keeps its record, flag included -/
+def KeepsB (e : Env) (w w' : World) : Prop :=
+  ∀ b, b ∈ w.borrows → b.liquidated = false → borrowUnsafe e b = false → b ∈ w'.borrows
+
+theorem same_id_eqB {l : List Borrow} (hn : (l.map (·.id)).Nodup) {a b : Borrow} (ha : a ∈ l) (hb : b ∈ l) (h : a.id = b.id) : a = b := by
+  induction l with
+  | nil => cases ha
+  | cons x xs ih =>
+    simp only [List.map_cons, List.nodup_cons] at hn
+    cases ha with
+    | head =>
+      cases hb with
+      | head => rfl
+      | tail _ hb' => exact absurd (List.mem_map_of_mem (f := (·.id)) hb') (by rw [← h]; exact hn.1)
+    | tail _ ha' =>
+      cases hb with
+      | head => exact absurd (List.mem_map_of_mem (f := (·.id)) ha') (by rw [h]; exact hn.1)
+      | tail _ hb' => exact ih hn.2 ha' hb'
+
+
+/-- what a successful borrow step did: nothing, or the complete seizure of the addressed, unflagged, unsafe borrow -/
+def borrowSeized (w : World) (id : Nat) (b : Borrow) : World :=
+  { w with
+    borrows := flag id w.borrows
+    poolBal := w.poolBal.add b.assetIn (- b.amountIn)
+    auctionBal := w.auctionBal.add b.assetIn b.amountIn
+    lockedId := w.lockedId + 1
+    auctionId := w.auctionId + 1
+    newLocked := w.newLocked ++ [{ id := w.lockedId + 1, orig := b.id, app := b.app, amountIn := b.amountIn, isBorrow := true }]
+    newAuctions := w.newAuctions ++ [{ id := w.auctionId + 1, locked := w.lockedId + 1, asset := b.assetIn, amount := b.amountIn }] }
+
+theorem liquidateBorrowV2_cases (e : Env) (id : Nat) (w w' : World) (h : liquidateBorrowV2 e id w = some w') :
+    w' = w ∨ ∃ b, w.borrows.find? (·.id == id) = some b ∧ b.liquidated = false ∧ borrowUnsafe e b = true ∧
+      b.amountIn ≤ w.poolBal.get b.assetIn ∧ w' = borrowSeized w id b := by
+  unfold liquidateBorrowV2 at h
+  split at h
+  · cases h
+  · rename_i b hb
+    split at h
+    · simp only [Option.some.injEq] at h; exact Or.inl h.symm
+    · rename_i hl
+      split at h
+      · cases h
+      · split at h
+        · cases h
+        · rename_i r hr
+          split at h
+          · rename_i hgt
+            have hu : borrowUnsafe e b = true := by
+              unfold borrowUnsafe; simp [hr, hgt]
+            have hl' : b.liquidated = false := by simpa using hl
+            simp only at h
+            split at h
+            · cases h
+            · split at h
+              · cases h
+              · rename_i hbal
+                split at h
+                · cases h
+                · split at h
+                  · cases h
+                  · simp only [Option.some.injEq] at h
+                    exact Or.inr ⟨b, hb, hl', hu, by omega, by rw [← h]; rfl⟩
+          · simp only [Option.some.injEq] at h; exact Or.inl h.symm
+
+theorem liquidateBorrowV2_keeps (e : Env) (id : Nat) (w w' : World) (hn : NodupB w)
+    (h : liquidateBorrowV2 e id w = some w') : KeepsB e w w' ∧ NodupB w' := by
+  cases liquidateBorrowV2_cases e id w w' h with
+  | inl h => rw [h]; exact ⟨fun b hb _ _ => hb, hn⟩
+  | inr h =>
+    obtain ⟨b0, hf, _, hu, _, hw⟩ := h
+    subst hw
+    unfold KeepsB NodupB borrowSeized
+    simp only
+    refine ⟨fun b hb _ hs => ?_, by rw [flag_ids]; exact hn⟩
+    have h0 := List.find?_some hf
+    have hm0 := List.mem_of_find?_eq_some hf
+    simp at h0
+    have hne : ¬ (b.id = id) := by
+      intro he
+      have : b = b0 := same_id_eqB hn hb hm0 (by rw [he, h0])
+      subst this
+      rw [hu] at hs; cases hs
+    unfold flag
+    apply List.mem_map.mpr
+    exact ⟨b, hb, by simp [hne]⟩
+
+/-- the books only grow by appending -/
+def Grows (w w' : World) : Prop :=
+  (∃ x, w'.newLocked = w.newLocked ++ x) ∧ (∃ y, w'.newAuctions = w.newAuctions ++ y)
+
+/-- every flagged borrow of `w'` was flagged in `w` already or is backed by a new locked vault and a new auction for it -/
+def Backed (w w' : World) : Prop :=
+  ∀ b', b' ∈ w'.borrows → b'.liquidated = true →
+    (∃ b, b ∈ w.borrows ∧ b.id = b'.id ∧ b.liquidated = true) ∨
+    (∃ l, l ∈ w'.newLocked ∧ l.orig = b'.id ∧ l.isBorrow = true ∧ ∃ a, a ∈ w'.newAuctions ∧ a.locked = l.id ∧ a.amount = l.amountIn)
+
+/-- the relation the block hook preserves step by step -/
+def StepRel (e : Env) (w w' : World) : Prop :=
+  Removes e w w' ∧ KeepsB e w w' ∧ Grows w w' ∧ Backed w w' ∧ (NodupB w → NodupB w')
+
+theorem Grows.trans {a b c : World} (h1 : Grows a b) (h2 : Grows b c) : Grows a c := by
+  obtain ⟨⟨x1, hx1⟩, ⟨y1, hy1⟩⟩ := h1
+  obtain ⟨⟨x2, hx2⟩, ⟨y2, hy2⟩⟩ := h2
+  exact ⟨⟨x1 ++ x2, by rw [hx2, hx1, List.append_assoc]⟩, ⟨y1 ++ y2, by rw [hy2, hy1, List.append_assoc]⟩⟩
+
+theorem Backed.trans {a b c : World} (h1 : Backed a b) (g2 : Grows b c) (h2 : Backed b c) : Backed a c := by
+  intro b'' hb'' hl''
+  cases h2 b'' hb'' hl'' with
+  | inr h => exact Or.inr h
+  | inl h =>
+    obtain ⟨b', hb', hid, hl'⟩ := h
+    cases h1 b' hb' hl' with
+    | inl h => obtain ⟨b0, hb0, hid0, hl0⟩ := h; exact Or.inl ⟨b0, hb0, by rw [hid0, hid], hl0⟩
+    | inr h =>
+      obtain ⟨l, hl, ho, hib, a, ha, hal, ham⟩ := h
+      obtain ⟨⟨x, hx⟩, ⟨y, hy⟩⟩ := g2
+      exact Or.inr ⟨l, by rw [hx]; exact List.mem_append_left _ hl, by rw [ho, hid], hib,
+        a, by rw [hy]; exact List.mem_append_left _ ha, hal, ham⟩
+
+theorem KeepsB.trans {e : Env} {a b c : World} (h1 : KeepsB e a b) (h2 : KeepsB e b c) : KeepsB e a c :=
+  fun x hx hl hs => h2 x (h1 x hx hl hs) hl hs
+
+theorem StepRel.refl (e : Env) (w : World) : StepRel e w w :=
+  ⟨Removes.refl e w, fun _ h _ _ => h, ⟨⟨[], by simp⟩, ⟨[], by simp⟩⟩, fun b hb hl => Or.inl ⟨b, hb, rfl, hl⟩, fun h => h⟩
+
+theorem StepRel.trans {e : Env} {a b c : World} (h1 : StepRel e a b) (h2 : StepRel e b c) : StepRel e a c :=
+  ⟨Removes.trans h1.1 h2.1, KeepsB.trans h1.2.1 h2.2.1, Grows.trans h1.2.2.1 h2.2.2.1,
+   Backed.trans h1.2.2.2.1 h2.2.2.1 h2.2.2.2.1, fun h => h2.2.2.2.2 (h1.2.2.2.2 h)⟩
+
+/-- a successful borrow step is in the relation (given unique borrow ids) -/
+theorem liquidateBorrowV2_rel (e : Env) (id : Nat) (w w' : World) (hn : NodupB w)
+    (h : liquidateBorrowV2 e id w = some w') : StepRel e w w' := by
+  have hk := liquidateBorrowV2_keeps e id w w' hn h
+  cases liquidateBorrowV2_cases e id w w' h with
+  | inl h => rw [h]; exact StepRel.refl e w
+  | inr hc =>
+    obtain ⟨b0, hf, _, _, _, hw⟩ := hc
+    have h0 := List.find?_some hf
+    simp at h0
+    refine ⟨?_, hk.1, ?_, ?_, fun _ => hk.2⟩
+    · subst hw; exact Removes.refl e w
+    · subst hw; exact ⟨⟨_, rfl⟩, ⟨_, rfl⟩⟩
+    · subst hw
+      intro b' hb' hl'
+      unfold borrowSeized flag at hb'
+      simp only [List.mem_map] at hb'
+      obtain ⟨x, hx, hxe⟩ := hb'
+      by_cases hid : (x.id == id) = true
+      · right
+        simp only [hid, if_true] at hxe
+        refine ⟨{ id := w.lockedId + 1, orig := b0.id, app := b0.app, amountIn := b0.amountIn, isBorrow := true }, ?_, ?_, rfl,
+          { id := w.auctionId + 1, locked := w.lockedId + 1, asset := b0.assetIn, amount := b0.amountIn }, ?_, rfl, rfl⟩
+        · unfold borrowSeized; simp
+        · have hxi : x.id = id := by simpa using hid
+          rw [← hxe]; simp only; rw [h0, hxi]
+        · unfold borrowSeized; simp
+      · left
+        simp only [hid, Bool.false_eq_true, if_false] at hxe
+        exact ⟨x, hx, by rw [hxe], by rw [hxe]; exact hl'⟩
+
+
+
 /-! ### block hooks and messages -/
 
 
 def Outcome.world? : Outcome → Option World
   | .ok w => some w
-  | .aborted w => some w
   | .panic => none
 
-theorem fold_inv (P : World → Prop) (f : Vault → World → Option World)
-    (hf : ∀ v w w', P w → f v w = some w' → P w') (sl : List Vault) (w : World) (h : P w) :
-    P (sl.foldl (fun acc v => applyIfNoError (f v) acc) w) := by
-  induction sl generalizing w with
-  | nil => exact h
-  | cons v rest ih =>
-    simp only [List.foldl_cons]
-    apply ih
-    unfold applyIfNoError
-    cases hfv : f v w with
-    | none => exact h
-    | some w1 => exact hf v w w1 h hfv
-
-theorem handOver_borrows (w w' : World) (v : Vault) (a : Nat) (h : handOver w v a = some w') : w'.borrows = w.borrows := by
+theorem handOver_books (w w' : World) (v : Vault) (a : Nat) (h : handOver w v a = some w') :
+    w'.borrows = w.borrows ∧ w'.offsets = w.offsets ∧ Grows w w' := by
   unfold handOver at h
   split at h
   · cases h
-  · simp only [Option.some.injEq] at h; subst h; rfl
+  · simp only [Option.some.injEq] at h; subst h
+    exact ⟨rfl, rfl, ⟨_, rfl⟩, ⟨_, rfl⟩⟩
 
-theorem vaultPass_borrows (batch key off : Nat) (f : Vault → World → Option World)
-    (hf : ∀ v w w', f v w = some w' → w'.borrows = w.borrows) (w w' : World)
-    (h : vaultPass batch key off f w = some w') : w'.borrows = w.borrows := by
+theorem stepRel_of_vault_step (e : Env) (w w' : World) (hr : Removes e w w')
+    (hc : w' = w ∨ ∃ v a, handOver w v a = some w') : StepRel e w w' := by
+  cases hc with
+  | inl h => subst h; exact StepRel.refl e _
+  | inr h =>
+    obtain ⟨v, a, ho⟩ := h
+    obtain ⟨hb, _, hg⟩ := handOver_books w w' v a ho
+    refine ⟨hr, fun b hbm _ _ => by rw [hb]; exact hbm, hg, fun b' hb' hl' => Or.inl ⟨b', by rw [← hb]; exact hb', rfl, hl'⟩,
+      fun hn => by unfold NodupB; rw [hb]; exact hn⟩
+
+theorem liquidateVaultV2_rel (e : Env) (L : List Vault) (hL : (L.map (·.id)).Nodup) (id : Nat) (w w' : World)
+    (hsub : ∀ q, q ∈ w.vaults → q ∈ L) (h : liquidateVaultV2 e id w = some w') : StepRel e w w' :=
+  stepRel_of_vault_step e w w' (liquidateVaultV2_removes e L hL id w w' hsub h)
+    (match liquidateVaultV2_cases e id w w' h with
+     | Or.inl h => Or.inl h
+     | Or.inr ⟨v, p, _, _, _, ho⟩ => Or.inr ⟨v, p.assetIn, ho⟩)
+
+theorem liquidateVaultV1_rel (e : Env) (L : List Vault) (hL : (L.map (·.id)).Nodup) (a : Nat) (v : Vault) (w w' : World)
+    (hsub : ∀ q, q ∈ w.vaults → q ∈ L) (hv : v ∈ L) (h : liquidateVaultV1 e a v w = some w') : StepRel e w w' :=
+  stepRel_of_vault_step e w w' (liquidateVaultV1_removes e L hL a v w w' hsub hv h)
+    (match liquidateVaultV1_cases e a v w w' h with
+     | Or.inl h => Or.inl h
+     | Or.inr ⟨p, _, _, ho⟩ => Or.inr ⟨v, p.assetIn, ho⟩)
+
+theorem fold_rel (e : Env) (L : List Vault) (f : Vault → World → Option World)
+    (hf : ∀ v, v ∈ L → ∀ w w', (∀ q, q ∈ w.vaults → q ∈ L) → f v w = some w' → StepRel e w w')
+    (sl : List Vault) (hsl : ∀ v, v ∈ sl → v ∈ L) (w : World) (hsub : ∀ q, q ∈ w.vaults → q ∈ L) :
+    StepRel e w (sl.foldl (fun acc v => applyIfNoError (f v) acc) w) := by
+  induction sl generalizing w with
+  | nil => exact StepRel.refl e w
+  | cons v rest ih =>
+    simp only [List.foldl_cons]
+    have hstep : StepRel e w (applyIfNoError (f v) w) := by
+      unfold applyIfNoError
+      cases hfv : f v w with
+      | none => exact StepRel.refl e w
+      | some w1 => exact hf v (hsl v (by simp)) w w1 hsub hfv
+    have hsub1 : ∀ q, q ∈ (applyIfNoError (f v) w).vaults → q ∈ L := fun q hq => hsub q (hstep.1.1 q hq)
+    exact StepRel.trans hstep (ih (fun x hx => hsl x (by simp [hx])) _ hsub1)
+
+theorem vaultPass_rel (e : Env) (L : List Vault) (batch key off : Nat) (f : Vault → World → Option World)
+    (hf : ∀ v, v ∈ L → ∀ w w', (∀ q, q ∈ w.vaults → q ∈ L) → f v w = some w' → StepRel e w w')
+    (w w' : World) (hsub : ∀ q, q ∈ w.vaults → q ∈ L) (h : vaultPass batch key off f w = some w') : StepRel e w w' := by
   unfold vaultPass at h
   simp only at h
   split at h
   · cases h
-  · simp only [Option.some.injEq] at h
+  · rename_i sl hsl
+    simp only [Option.some.injEq] at h
     subst h
-    exact fold_inv (fun x => x.borrows = w.borrows) f (fun v a b hp hfv => by rw [hf v a b hfv]; exact hp) _ w rfl
+    exact fold_rel e L f hf sl (fun v hv => hsub v (goSlice_sub _ _ _ _ hsl v hv)) w hsub
 
-theorem liquidateVaultV2_borrows (e : Env) (id : Nat) (w w' : World) (h : liquidateVaultV2 e id w = some w') :
-    w'.borrows = w.borrows := by
-  cases liquidateVaultV2_cases e id w w' h with
-  | inl h => rw [h]
-  | inr h => obtain ⟨v, p, _, _, _, ho⟩ := h; exact handOver_borrows w w' v _ ho
+theorem foldB_rel (e : Env) (ids : List Nat) (w : World) (hn : NodupB w) :
+    StepRel e w (ids.foldl (fun acc id => applyIfNoError (liquidateBorrowV2 e id) acc) w) := by
+  induction ids generalizing w with
+  | nil => exact StepRel.refl e w
+  | cons id rest ih =>
+    simp only [List.foldl_cons]
+    have hstep : StepRel e w (applyIfNoError (liquidateBorrowV2 e id) w) := by
+      unfold applyIfNoError
+      cases hfv : liquidateBorrowV2 e id w with
+      | none => exact StepRel.refl e w
+      | some w1 => exact liquidateBorrowV2_rel e id w w1 hn hfv
+    exact StepRel.trans hstep (ih _ (hstep.2.2.2.2 hn))
 
-theorem KeepsB.trans {e : Env} {a b c : World} (h1 : KeepsB e a b) (h2 : KeepsB e b c) : KeepsB e a c :=
-  fun x hx hl hs => h2 x (h1 x hx hl hs) hl hs
-
-/-- generation 2 block hook: whatever it did (completed or aborted in the borrow loop), every vault that disappeared
-was unsafe and every unflagged safe borrow is untouched -/
-theorem blockV2_safe (fix : Bool) (e : Env) (batch : Nat) (w w' : World) (hn : NodupIds w) (hb : NodupB w)
-    (h : (blockV2 fix e batch w).world? = some w') : Removes e w w' ∧ KeepsB e w w' := by
+/-- generation 2 block hook: removed vaults were unsafe, safe unflagged borrows untouched, the books only grow, every
+newly flagged borrow is backed by a locked vault and an auction -/
+theorem blockV2_rel (e : Env) (batch : Nat) (w w' : World) (hn : NodupIds w) (hb : NodupB w)
+    (h : (blockV2 e batch w).world? = some w') : StepRel e w w' := by
   unfold blockV2 at h
   simp only at h
   split at h
   · cases h
   · rename_i w1 hvp
-    have hr1 : Removes e w w1 :=
-      vaultPass_removes e w.vaults batch 0 _ (fun v => liquidateVaultV2 e v.id)
-        (fun v _ a b hsub hfv => liquidateVaultV2_removes e w.vaults hn v.id a b hsub hfv) w w1 (fun _ h => h) hvp
-    have hb1 : w1.borrows = w.borrows :=
-      vaultPass_borrows batch 0 _ _ (fun v a b hfv => liquidateVaultV2_borrows e v.id a b hfv) w w1 hvp
-    have hnb1 : NodupB w1 := by unfold NodupB; rw [hb1]; exact hb
+    have hr1 : StepRel e w w1 :=
+      vaultPass_rel e w.vaults batch 0 _ (fun v => liquidateVaultV2 e v.id)
+        (fun v _ a b hsub hfv => liquidateVaultV2_rel e w.vaults hn v.id a b hsub hfv) w w1 (fun _ h => h) hvp
     unfold borrowPassV2 at h
     simp only at h
     split at h
     · cases h
-    · have hspec := borrowLoopV2_spec e ‹List Nat› w1 hnb1
-      split at h
-      · rename_i leak hl
-        rw [hl] at hspec
-        simp only [Outcome.world?, Option.some.injEq] at h
-        subst h
-        refine ⟨⟨fun q hq => hr1.1 q (by rw [← hspec.1]; exact hq), fun q hq hnq => hr1.2 q hq (by rw [← hspec.1]; exact hnq)⟩, ?_⟩
-        intro b hbm hl' hs
-        exact hspec.2 b (by rw [hb1]; exact hbm) hl' hs
-      · rename_i w2 hl
-        rw [hl] at hspec
-        simp only [Outcome.world?, Option.some.injEq] at h
-        subst h
-        refine ⟨⟨fun q hq => hr1.1 q (by rw [← hspec.1]; exact hq), fun q hq hnq => hr1.2 q hq (by rw [← hspec.1]; exact hnq)⟩, ?_⟩
-        intro b hbm hl' hs
-        exact hspec.2 b (by rw [hb1]; exact hbm) hl' hs
+    · simp only [Outcome.world?, Option.some.injEq] at h
+      subst h
+      exact StepRel.trans hr1 (foldB_rel e _ w1 (hr1.2.2.2.2 hb))
 
-theorem appsLoopV1_removes (e : Env) (batch : Nat) (L : List Vault) (hL : (L.map (·.id)).Nodup) (apps : List App) (w w' : World)
-    (hsub : ∀ q, q ∈ w.vaults → q ∈ L) (h : appsLoopV1 e batch apps w = some w') : Removes e w w' := by
+theorem appsLoopV1_rel (e : Env) (batch : Nat) (L : List Vault) (hL : (L.map (·.id)).Nodup) (apps : List App) (w w' : World)
+    (hsub : ∀ q, q ∈ w.vaults → q ∈ L) (h : appsLoopV1 e batch apps w = some w') : StepRel e w w' := by
   induction apps generalizing w with
   | nil =>
     unfold appsLoopV1 at h
-    simp only [Option.some.injEq] at h; subst h; exact Removes.refl e w
+    simp only [Option.some.injEq] at h; subst h; exact StepRel.refl e w
   | cons a rest ih =>
     unfold appsLoopV1 at h
     split at h
@@ -965,19 +1046,19 @@ theorem appsLoopV1_removes (e : Env) (batch : Nat) (L : List Vault) (hL : (L.map
       split at h
       · cases h
       · rename_i w1 hvp
-        have hr1 : Removes e w w1 :=
-          vaultPass_removes e L batch a.id _ (fun v => liquidateVaultV1 e a.id v)
-            (fun v hv x y hs hfv => liquidateVaultV1_removes e L hL a.id v x y hs hv hfv) w w1 hsub hvp
-        exact Removes.trans hr1 (ih w1 (fun q hq => hsub q (hr1.1 q hq)) h)
+        have hr1 : StepRel e w w1 :=
+          vaultPass_rel e L batch a.id _ (fun v => liquidateVaultV1 e a.id v)
+            (fun v hv x y hs hfv => liquidateVaultV1_rel e L hL a.id v x y hs hv hfv) w w1 hsub hvp
+        exact StepRel.trans hr1 (ih w1 (fun q hq => hsub q (hr1.1.1 q hq)) h)
 
 /-- generation 1 block hook -/
-theorem blockV1_safe (e : Env) (batch : Nat) (w w' : World) (hn : NodupIds w)
-    (h : (blockV1 e batch w).world? = some w') : Removes e w w' := by
+theorem blockV1_rel (e : Env) (batch : Nat) (w w' : World) (hn : NodupIds w)
+    (h : (blockV1 e batch w).world? = some w') : StepRel e w w' := by
   unfold blockV1 at h
   split at h
   · cases h
   · rename_i w1 hl
-    have hr := appsLoopV1_removes e batch w.vaults hn _ w w1 (fun _ h => h) hl
+    have hr := appsLoopV1_rel e batch w.vaults hn _ w w1 (fun _ h => h) hl
     simp only at h
     split at h
     · cases h
@@ -985,31 +1066,19 @@ theorem blockV1_safe (e : Env) (batch : Nat) (w w' : World) (hn : NodupIds w)
       subst h
       exact hr
 
-/-- generation 2 liquidate message (any sender, any target) -/
-theorem msgLiquidateV2_safe (e : Env) (liqType id : Nat) (w w' : World) (hn : NodupIds w) (hb : NodupB w)
-    (h : msgLiquidateV2 e liqType id w = some w') : Removes e w w' ∧ KeepsB e w w' := by
+/-- generation 2 liquidate message (any sender, any type, any target) -/
+theorem msgLiquidateV2_rel (e : Env) (liqType id : Nat) (w w' : World) (hn : NodupIds w) (hb : NodupB w)
+    (h : msgLiquidateV2 e liqType id w = some w') : StepRel e w w' := by
   unfold msgLiquidateV2 at h
   split at h
-  · refine ⟨liquidateVaultV2_removes e w.vaults hn id w w' (fun _ h => h) h, ?_⟩
-    have := liquidateVaultV2_borrows e id w w' h
-    intro b hbm _ _; rw [this]; exact hbm
+  · exact liquidateVaultV2_rel e w.vaults hn id w w' (fun _ h => h) h
   · split at h
-    · have hfr := liquidateBorrowV2_frame e id w
-      have hk := liquidateBorrowV2_keeps e id w hb
-      split at h
-      · rename_i w2 hl
-        simp only [Option.some.injEq] at h
-        subst h
-        rw [hl] at hfr hk
-        have hv : w2.vaults = w.vaults := hfr.1
-        refine ⟨⟨fun q hq => by rw [← hv]; exact hq, fun q hq hnq => absurd (by rw [hv]; exact hq) hnq⟩, hk.1⟩
-      · cases h
-    · simp only [Option.some.injEq] at h; subst h
-      exact ⟨Removes.refl e w, fun b hbm _ _ => hbm⟩
+    · exact liquidateBorrowV2_rel e id w w' hb h
+    · simp only [Option.some.injEq] at h; subst h; exact StepRel.refl e w
 
 /-- generation 1 liquidate-vault message -/
-theorem msgLiquidateVaultV1_safe (e : Env) (app id : Nat) (w w' : World) (hn : NodupIds w)
-    (h : msgLiquidateVaultV1 e app id w = some w') : Removes e w w' := by
+theorem msgLiquidateVaultV1_rel (e : Env) (app id : Nat) (w w' : World) (hn : NodupIds w)
+    (h : msgLiquidateVaultV1 e app id w = some w') : StepRel e w w' := by
   unfold msgLiquidateVaultV1 at h
   simp only at h
   split at h
@@ -1019,7 +1088,86 @@ theorem msgLiquidateVaultV1_safe (e : Env) (app id : Nat) (w w' : World) (hn : N
     · split at h
       · cases h
       · rename_i v hf
-        exact liquidateVaultV1_removes e w.vaults hn app v w w' (fun _ h => h) (find_id_eq hf).2 h
+        exact liquidateVaultV1_rel e w.vaults hn app v w w' (fun _ h => h) (find_id_eq hf).2 h
+
+/-! offsets: the borrow pass does not touch the vault sweep's offset -/
+theorem Offsets.get?_set_other (o : Offsets) (k k' v : Nat) (hne : k' ≠ k) : (Offsets.set o k v).get? k' = o.get? k' := by
+  unfold Offsets.set Offsets.get?
+  have hkk : (k == k') = false := by simp only [beq_eq_false_iff_ne, ne_eq]; exact fun h => hne h.symm
+  by_cases h : o.any (·.1 == k) = true
+  · simp only [h, if_true]
+    congr 1
+    induction o with
+    | nil => rfl
+    | cons x xs ih =>
+      simp only [List.map_cons, List.find?_cons]
+      cases hx : (x.1 == k) with
+      | true =>
+        have hxk : x.1 = k := by simpa using hx
+        have h1 : (x.1 == k') = false := by rw [hxk]; exact hkk
+        simp only [if_true, hkk, h1]
+        by_cases hr : xs.any (·.1 == k) = true
+        · exact ih hr
+        · -- no later entry has key k: mapping changes nothing that `find? (· == k')` can see; prove by a direct induction
+          clear ih h
+          induction xs with
+          | nil => rfl
+          | cons y ys ih2 =>
+            simp only [Bool.not_eq_true, List.any_cons, Bool.or_eq_false_iff] at hr
+            simp only [List.map_cons, List.find?_cons, hr.1, Bool.false_eq_true, if_false]
+            cases (y.1 == k') with
+            | true => rfl
+            | false => exact ih2 (by rw [hr.2]; exact Bool.false_ne_true)
+      | false =>
+        simp only [List.any_cons, hx, Bool.false_or] at h
+        simp only [Bool.false_eq_true, if_false]
+        cases (x.1 == k') with
+        | true => rfl
+        | false => exact ih h
+  · simp only [Bool.not_eq_true] at h
+    simp only [h, Bool.false_eq_true, if_false]
+    rw [List.find?_append]
+    have : ([(k, v)] : Offsets).find? (·.1 == k') = none := by
+      simp only [List.find?_cons, List.find?_nil, hkk]
+    rw [this]; simp
+
+theorem liquidateBorrowV2_offsets (e : Env) (id : Nat) (w w' : World) (h : liquidateBorrowV2 e id w = some w') :
+    w'.offsets = w.offsets := by
+  cases liquidateBorrowV2_cases e id w w' h with
+  | inl h => rw [h]
+  | inr h => obtain ⟨b, _, _, _, _, hw⟩ := h; rw [hw]; rfl
+
+theorem foldB_offsets (e : Env) (ids : List Nat) (w : World) :
+    (ids.foldl (fun acc id => applyIfNoError (liquidateBorrowV2 e id) acc) w).offsets = w.offsets := by
+  induction ids generalizing w with
+  | nil => rfl
+  | cons id rest ih =>
+    simp only [List.foldl_cons]
+    rw [ih]
+    unfold applyIfNoError
+    cases hfv : liquidateBorrowV2 e id w with
+    | none => rfl
+    | some w1 => exact liquidateBorrowV2_offsets e id w w1 hfv
+
+/-- the vault offset after a generation-2 block is the vault pass's own range end: the borrow pass cannot move it -/
+theorem blockV2_vault_offset (e : Env) (batch : Nat) (w w' : World) (h : blockV2 e batch w = .ok w') :
+    w'.offsets.get? 0 =
+      some (sweepBoundsI (toGoInt w.counter) (toGoInt ((w.offsets.get? 0).getD 0)) (toGoInt batch)).2.toNat := by
+  unfold blockV2 at h
+  simp only at h
+  split at h
+  · cases h
+  · rename_i w1 hvp
+    have h0 := vaultPass_offset batch 0 _ _ w w1 hvp
+    unfold borrowPassV2 at h
+    simp only at h
+    split at h
+    · cases h
+    · simp only [Outcome.ok.injEq] at h
+      subst h
+      simp only
+      rw [Offsets.get?_set_other _ 1 0 _ (by omega), foldB_offsets]
+      exact h0
 
 
 end Comdex.Liquidation
